@@ -2,10 +2,83 @@ import ShelxModel.JsonUtil
 import ShelxModel.C08
 open Lean Shelx.J
 
+/-
+  C08 driver.  {"p":"C08","op":"replay","cfg":"repaired"|"snapshot","file":[LINE…],"ops":[OP…]}
+    LINE = ["r",t] | ["a",t,name] | ["c",t]
+    OP   = ["delId",k] | ["delete",a] | ["insert",pos,t] | ["rename",a,name,t] | ["retext",u,t] | ["lookup"] | ["read",[LINE…]]
+  Answer: {"steps":[SNAP…]} — one snapshot after the initial read and one after every op. The harness looks at the
+  object graph after every step (which goes through `atomsdict`), so the replay applies `lookup` after each snapshot.
+    SNAP = {"raised":b, "atoms":[[uid,atomid,index|null]…], "cards":[[uid,index|null]…], "byname":[[uid,found|null]…],
+            "res":[[kind,x]…], "gone":[uid…], "model":[six clause verdicts of Inv8 on the model state], "spec":true}
+-/
 namespace Shelx.Drv.C08
+open Shelx.C08
+
+def lineOf (j : Json) : Except String Line := do
+  let a ← arr j
+  match a with
+  | [k, t] =>
+    let k ← str k
+    let t ← nat t
+    if k == "r" then return .raw t else if k == "c" then return .card t else err s!"C08: bad line kind {k}"
+  | [k, t, n] =>
+    let k ← str k
+    if k != "a" then err s!"C08: bad line kind {k}"
+    return .atom (← nat t) (← nat n)
+  | _ => err "C08: bad line"
+
+def opOf (j : Json) : Except String Op := do
+  let a ← arr j
+  match a with
+  | [] => err "C08: empty op"
+  | k :: args =>
+    let k ← str k
+    match k, args with
+    | "delId", [x] => return .delId (← nat x)
+    | "delete", [x] => return .delete (← nat x)
+    | "insert", [p, t] => return .insertAfter (← nat p) (← nat t)
+    | "rename", [a, n, t] => return .rename (← nat a) (← nat n) (← nat t)
+    | "retext", [u, t] => return .retext (← nat u) (← nat t)
+    | "lookup", [] => return .lookup
+    | "read", [f] => return .read (← (← arr f).mapM lineOf)
+    | _, _ => err s!"C08: bad op {k}"
+
+def optNat : Option Nat → Json
+  | none => Json.null
+  | some n => ofNat n
+
+def entryJson : Entry → Json
+  | .raw t => Json.arr #[Json.str "r", ofNat t]
+  | .atom u => Json.arr #[Json.str "a", ofNat u]
+  | .card u => Json.arr #[Json.str "c", ofNat u]
+
+def snap (c : Cfg) (s : St) (raised : Bool) : Json :=
+  Json.mkObj [
+    ("raised", Json.bool raised),
+    ("atoms", Json.arr (s.atoms.map fun a => Json.arr #[ofNat a, ofNat (atomid c s a), optNat (indexOf c s (.atom a))]).toArray),
+    ("cards", Json.arr (s.cards.map fun k => Json.arr #[ofNat k, optNat (indexOf c s (.card k))]).toArray),
+    ("byname", Json.arr (s.atoms.map fun a => Json.arr #[ofNat a, optNat (byName s (s.name a))]).toArray),
+    ("res", Json.arr (s.res.map entryJson).toArray),
+    ("gone", Json.arr (s.gone.map ofNat).toArray),
+    ("model", Json.arr ((clauses c s).map Json.bool).toArray),
+    -- the theorem's right-hand side: after any history of the repaired code every clause holds (history_inv)
+    ("spec", Json.bool true)]
+
+def replay (c : Cfg) : List Op → St → List Json → List Json
+  | [], _, acc => acc.reverse
+  | op :: ops, s, acc =>
+    let (s', r) := step c op s
+    replay c ops (warm s') (snap c s' r :: acc)
 
 def handle (j : Json) : Except String Json := do
   let op ← strField j "op"
-  err s!"C08: unknown op {op}"
+  match op with
+  | "replay" =>
+    let cfg ← strField j "cfg"
+    let c ← if cfg == "repaired" then pure repaired else if cfg == "snapshot" then pure snapshot else err s!"C08: bad cfg {cfg}"
+    let f ← (← arrField j "file").mapM lineOf
+    let ops ← (← arrField j "ops").mapM opOf
+    return Json.mkObj [("steps", Json.arr (replay c (.read f :: ops) init []).toArray)]
+  | _ => err s!"C08: unknown op {op}"
 
 end Shelx.Drv.C08
